@@ -827,10 +827,32 @@ Proof.
   assert (Hit : (i < length (tms (ts s)))%nat) by (rewrite (hi_len _ _ HI); exact Hi).
   destruct (tframe_stop (ts s) i (hi_ti _ _ HI) Hit) as (F1 & C1 & Ea).
   unfold l_timer_stop.
-  eapply LInvG_timer_sync with (i := i) (T := timer_stop (ts s) i); eauto.
-  - apply hstep_sync_timer_active; [exact Hi|]. apply hstep_set_ts with (T := ts s). apply hstep_refl.
-  - apply TI_timer_stop; [apply (hi_ti _ _ HI)|exact Hit].
-  - rewrite Ea. discriminate.
+  pose proof (hstep_sync_timer_active s _ i _ _ _ _ Hi
+               (hstep_set_ts s s i _ _ _ _ (timer_stop (ts s) i) (hstep_refl s i))) as Hst.
+  eapply LInvG_timer_sync with (i := i);
+    [exact Hinv|exact Hi|exact Hst|apply TI_timer_stop; [apply (hi_ti _ _ HI)|exact Hit]
+    |exact F1|exact C1| |reflexivity|reflexivity|reflexivity|reflexivity].
+  rewrite Ea. discriminate.
+Qed.
+
+Lemma LInvG_timer_shape s pend wpend i ts' (b : bool) :
+  (i < length (hs s))%nat -> is_timer (hget s i) = true ->
+  LInvG s pend wpend ->
+  TI ts' -> tframe (ts s) ts' i -> tclose_ok (ts s) ts' i ->
+  LInvG (sync_timer_active (set_ts (if b then handle_stop s i else s) ts') i) pend wpend.
+Proof.
+  intros Hi Htm Hinv T1 F1 C1. destruct b.
+  - pose proof (hstep_sync_timer_active s _ i _ _ _ _ Hi
+                 (hstep_set_ts s _ i _ _ _ _ ts'
+                    (hstep_handle_stop s s i _ _ _ _ Hi (hstep_refl s i)))) as Hst.
+    eapply LInvG_timer_sync with (i := i);
+      [exact Hinv|exact Hi|exact Hst|exact T1|exact F1|exact C1|intros _; exact Htm
+      |reflexivity|reflexivity|reflexivity|reflexivity].
+  - pose proof (hstep_sync_timer_active s _ i _ _ _ _ Hi
+                 (hstep_set_ts s s i _ _ _ _ ts' (hstep_refl s i))) as Hst.
+    eapply LInvG_timer_sync with (i := i);
+      [exact Hinv|exact Hi|exact Hst|exact T1|exact F1|exact C1|intros _; exact Htm
+      |reflexivity|reflexivity|reflexivity|reflexivity].
 Qed.
 
 Lemma LInvG_l_timer_start s pend wpend i cb t r :
@@ -842,17 +864,7 @@ Proof.
   destruct (tframe_start (ts s) i cb t r (hi_ti _ _ HI) Hit) as (F1 & C1).
   pose proof (TI_timer_start (ts s) i cb t r (hi_ti _ _ HI) Hit) as T1.
   unfold l_timer_start. destruct (timer_start (ts s) i cb t r) as [ts' c] eqn:E.
-  cbn [fst] in *.
-  destruct (c =? 0).
-  - eapply LInvG_timer_sync with (i := i) (T := ts'); eauto.
-    + apply hstep_sync_timer_active; [exact Hi|]. apply hstep_set_ts with (T := ts s).
-      apply hstep_handle_stop; [exact Hi|apply hstep_refl].
-    + reflexivity.
-    + reflexivity.
-  - eapply LInvG_timer_sync with (i := i) (T := ts'); eauto.
-    + apply hstep_sync_timer_active; [exact Hi|]. apply hstep_set_ts with (T := ts s).
-      apply hstep_refl.
-    + reflexivity.
+  cbn [fst] in *. apply LInvG_timer_shape; assumption.
 Qed.
 
 Lemma LInvG_l_timer_again s pend wpend i :
@@ -864,17 +876,7 @@ Proof.
   destruct (tframe_again (ts s) i (hi_ti _ _ HI) Hit) as (F1 & C1).
   pose proof (TI_timer_again (ts s) i (hi_ti _ _ HI) Hit) as T1.
   unfold l_timer_again. destruct (timer_again (ts s) i) as [ts' c] eqn:E.
-  cbn [fst] in *.
-  destruct ((c =? 0) && negb (t_repeat (get (ts s) i) =? 0)).
-  - eapply LInvG_timer_sync with (i := i) (T := ts'); eauto.
-    + apply hstep_sync_timer_active; [exact Hi|]. apply hstep_set_ts with (T := ts s).
-      apply hstep_handle_stop; [exact Hi|apply hstep_refl].
-    + reflexivity.
-    + reflexivity.
-  - eapply LInvG_timer_sync with (i := i) (T := ts'); eauto.
-    + apply hstep_sync_timer_active; [exact Hi|]. apply hstep_set_ts with (T := ts s).
-      apply hstep_refl.
-    + reflexivity.
+  cbn [fst] in *. apply LInvG_timer_shape; assumption.
 Qed.
 
 Lemma LInvG_set_repeat s pend wpend i r :
@@ -885,10 +887,712 @@ Proof.
   assert (Hit : (i < length (tms (ts s)))%nat) by (rewrite (hi_len _ _ HI); exact Hi).
   destruct (tframe_set_repeat (ts s) i r Hit) as ((F1 & F2 & F3 & F4) & Ec & Ea).
   destruct (hi_sync _ _ HI i Hi) as (S1 & S2 & S3).
-  eapply LInvG_hstep with (i := i) (f := fun h => h); eauto.
+  apply (LInvG_hstep s (set_ts s (timer_set_repeat (ts s) i r)) pend wpend i (fun h => h));
+    cbn [ts clock set_ts]; auto.
   - apply hstep_set_ts with (T := ts s). apply hstep_refl.
-  - cbn [ts clock set_ts]. rewrite F1. apply (hi_clock _ _ HI).
-  - cbn [ts set_ts]. apply TI_set_repeat; [apply (hi_ti _ _ HI)|exact Hit].
-  - cbn [ts set_ts]. unfold tsync1. rewrite Ec, Ea. auto.
+  - rewrite F1. apply (hi_clock _ _ HI).
+  - apply TI_set_repeat; [apply (hi_ti _ _ HI)|exact Hit].
+  - unfold tsync1. rewrite Ec, Ea. auto.
   - apply (hi_hok _ _ HI i Hi).
+Qed.
+
+(* ------------------------------------------------------------------ *)
+(* uv_close                                                           *)
+(* ------------------------------------------------------------------ *)
+Lemma LInvG_hstep_closeTK s0 s pend wpend i f T K :
+  LInvG s0 pend wpend -> (i < length (hs s0))%nat ->
+  hstepG s0 s i f T K (i :: closing s0) ->
+  now T <= K ->
+  TI T -> length (tms T) = length (tms (ts s0)) ->
+  (forall j, j <> i -> get T j = get (ts s0) j) ->
+  (forall j, In j (ready T) -> In j (ready (ts s0))) ->
+  h_kind (f (hget s0 i)) = h_kind (hget s0 i) ->
+  tsync1 (f (hget s0 i)) (get T i) ->
+  hok (f (hget s0 i)) ->
+  h_closing (hget s0 i) = false ->
+  h_closing (f (hget s0 i)) = true ->
+  h_closed (f (hget s0 i)) = false ->
+  LInvG s pend wpend.
+Proof.
+  intros Hinv Hi Hst. pose proof Hst as (_ & _ & E3 & E4 & _). subst T K.
+  intros. eapply LInvG_hstep_close; eauto.
+Qed.
+
+Lemma LInvG_hstep_close_plain s0 s pend wpend i f :
+  LInvG s0 pend wpend -> (i < length (hs s0))%nat ->
+  hstepG s0 s i f (ts s0) (clock s0) (i :: closing s0) ->
+  is_timer (hget s0 i) = false ->
+  h_kind (f (hget s0 i)) = h_kind (hget s0 i) ->
+  h_active (f (hget s0 i)) = false ->
+  h_closing (hget s0 i) = false ->
+  h_closing (f (hget s0 i)) = true ->
+  h_closed (f (hget s0 i)) = false ->
+  LInvG s pend wpend.
+Proof.
+  intros Hinv Hi Hst Hnt Hk Ha Hc0 Hcg Hcd. pose proof Hinv as [HI _].
+  destruct (hi_sync _ _ HI i Hi) as (S1 & S2 & S3).
+  eapply LInvG_hstep_closeTK; eauto.
+  - apply (hi_clock _ _ HI).
+  - apply (hi_ti _ _ HI).
+  - unfold tsync1, is_timer in *. rewrite Hk, Hnt in *. cbn [andb] in *.
+    split; [exact S1|split; [discriminate|exact S3]].
+  - split; [intros _; exact Ha|congruence].
+Qed.
+
+Lemma p_ar_with_closing b h : p_ar (with_closing b h) = p_ar h. Proof. reflexivity. Qed.
+Lemma p_ar_with_closed b h : p_ar (with_closed b h) = p_ar h. Proof. reflexivity. Qed.
+Lemma p_ar_with_pending b h : p_ar (with_pending b h) = p_ar h. Proof. reflexivity. Qed.
+Lemma p_ar_with_hascb b h : p_ar (with_hascb b h) = p_ar h. Proof. reflexivity. Qed.
+
+Lemma LInvG_l_close s pend wpend i :
+  (i < length (hs s))%nat -> h_closed (hget s i) = false ->
+  LInvG s pend wpend -> LInvG (l_close s i) pend wpend.
+Proof.
+  intros Hi Hcd Hinv. pose proof Hinv as [HI _]. unfold l_close.
+  destruct (h_closing (hget s i)) eqn:Ec; [exact Hinv|].
+  pose proof (hstep_upd_h s s i (fun h => h) (with_closing true) _ _ _ (p_ar_with_closing _ _) (hstep_refl s i)) as H1.
+  cbv beta in H1.
+  destruct (h_kind (hget s i)) eqn:Ek.
+  - (* timer *)
+    assert (Hit : (i < length (tms (ts s)))%nat) by (rewrite (hi_len _ _ HI); exact Hi).
+    destruct (tframe_close (ts s) i (hi_ti _ _ HI) Hit) as ((F1 & F2 & F3 & F4) & Tc & Ta).
+    pose proof (hstep_handle_stop s _ i _ _ _ _ Hi
+                 (hstep_set_ts s _ i _ _ _ _ (timer_close (ts s) i) H1)) as H2.
+    pose proof (proj1 (proj2 (proj2 (proj2 (proj2 H2))))) as Ecl.
+    cbn [ts upd_h set_hs]. rewrite Ecl.
+    eapply LInvG_hstep_closeTK with (i := i);
+      [exact Hinv|exact Hi|exact (hstep_set_closing _ _ _ _ _ _ _ _ H2)| | |exact F2|exact F4|exact F3
+      |reflexivity| | |exact Ec|reflexivity|exact Hcd].
+    + rewrite F1. apply (hi_clock _ _ HI).
+    + apply TI_close; [apply (hi_ti _ _ HI)|exact Hit].
+    + unfold tsync1. cbn. rewrite Ta, Tc, andb_false_r. auto.
+    + split; cbn; auto.
+  - (* idle *)
+    pose proof (hstep_watcher_stop s _ i _ _ _ _ Hi H1) as H2.
+    pose proof (proj1 (proj2 (proj2 (proj2 (proj2 H2))))) as Ecl. rewrite Ecl.
+    eapply LInvG_hstep_close_plain with (i := i);
+      [exact Hinv|exact Hi|exact (hstep_set_closing _ _ _ _ _ _ _ _ H2)|unfold is_timer; rewrite Ek; reflexivity
+      |reflexivity|reflexivity|exact Ec|reflexivity|exact Hcd].
+  - (* prepare *)
+    pose proof (hstep_watcher_stop s _ i _ _ _ _ Hi H1) as H2.
+    pose proof (proj1 (proj2 (proj2 (proj2 (proj2 H2))))) as Ecl. rewrite Ecl.
+    eapply LInvG_hstep_close_plain with (i := i);
+      [exact Hinv|exact Hi|exact (hstep_set_closing _ _ _ _ _ _ _ _ H2)|unfold is_timer; rewrite Ek; reflexivity
+      |reflexivity|reflexivity|exact Ec|reflexivity|exact Hcd].
+  - (* check *)
+    pose proof (hstep_watcher_stop s _ i _ _ _ _ Hi H1) as H2.
+    pose proof (proj1 (proj2 (proj2 (proj2 (proj2 H2))))) as Ecl. rewrite Ecl.
+    eapply LInvG_hstep_close_plain with (i := i);
+      [exact Hinv|exact Hi|exact (hstep_set_closing _ _ _ _ _ _ _ _ H2)|unfold is_timer; rewrite Ek; reflexivity
+      |reflexivity|reflexivity|exact Ec|reflexivity|exact Hcd].
+  - (* async *)
+    pose proof (hstep_upd_h s _ i _ (with_pending true) _ _ _ (p_ar_with_pending _ _) H1) as H1'.
+    cbv beta in H1'.
+    set (s' := upd_h _ i (with_pending true)) in *.
+    set (s'' := set_async s' _).
+    set (s''' := set_alq s'' _).
+    assert (H1'' : hstepG s s''' i (fun h => with_pending true (with_closing true h))
+                          (ts s) (clock s) (closing s))
+      by (eapply hstep_core; [|exact H1']; reflexivity).
+    pose proof (hstep_handle_stop s _ i _ _ _ _ Hi H1'') as H2.
+    pose proof (proj1 (proj2 (proj2 (proj2 (proj2 H2))))) as Ecl. rewrite Ecl.
+    eapply LInvG_hstep_close_plain with (i := i);
+      [exact Hinv|exact Hi|exact (hstep_set_closing _ _ _ _ _ _ _ _ H2)|unfold is_timer; rewrite Ek; reflexivity
+      |reflexivity|reflexivity|exact Ec|reflexivity|exact Hcd].
+Qed.
+
+(* ------------------------------------------------------------------ *)
+(* uv__handle_init                                                    *)
+(* ------------------------------------------------------------------ *)
+Lemma hget_init_old s k i : (i < length (hs s))%nat -> hget (handle_init s k) i = hget s i.
+Proof. intros Hi. unfold hget, handle_init; cbn. apply app_nth1. exact Hi. Qed.
+
+Lemma hget_init_new s k :
+  hget (handle_init s k) (length (hs s)) = mkH k false true false false false false.
+Proof. unfold hget, handle_init; cbn. apply nth_app_last. Qed.
+
+Lemma get_timer_init_old t i : (i < length (tms t))%nat -> get (timer_init t) i = get t i.
+Proof. intros Hi. unfold get, timer_init; cbn. apply app_nth1. exact Hi. Qed.
+
+Lemma get_timer_init_new t : get (timer_init t) (length (tms t)) = dflt_timer.
+Proof. unfold get, timer_init; cbn. apply nth_app_last. Qed.
+
+Lemma LInvG_handle_init s pend wpend k :
+  LInvG s pend wpend -> LInvG (handle_init s k) pend wpend.
+Proof.
+  intros [[A B C D E F G H I] WI]. split; [|eapply WInv_fields; [| | |exact WI]; reflexivity].
+  assert (L : length (hs (handle_init s k)) = S (length (hs s)))
+    by (unfold handle_init; cbn; rewrite app_length; simpl; lia).
+  assert (Hlt : forall i, (i < length (hs (handle_init s k)))%nat ->
+                          (i < length (hs s))%nat \/ i = length (hs s)) by (intros; lia).
+  constructor.
+  - unfold handle_init; cbn. apply TI_timer_init. exact A.
+  - exact B.
+  - unfold handle_init; cbn. rewrite !app_length. simpl. lia.
+  - intros i Hi. destruct (Hlt i Hi) as [Lo| ->].
+    + rewrite hget_init_old by exact Lo. unfold handle_init; cbn [ts set_ts set_hs].
+      rewrite get_timer_init_old by lia. apply D; exact Lo.
+    + rewrite hget_init_new. unfold handle_init; cbn [ts set_ts set_hs].
+      rewrite <- C, get_timer_init_new. unfold tsync1; cbn. rewrite andb_false_r.
+      split; [reflexivity|split; discriminate].
+  - intros i Hi. unfold handle_init in Hi; cbn in Hi.
+    destruct (ti_r _ A i Hi) as (Hr & _). rewrite hget_init_old by lia. apply E; exact Hi.
+  - intros i Hi. destruct (Hlt i Hi) as [Lo| ->].
+    + rewrite hget_init_old by exact Lo. apply F; exact Lo.
+    + rewrite hget_init_new. split; cbn; discriminate.
+  - unfold handle_init; cbn. rewrite countZ_app, countZ_cons, countZ_nil. cbn. lia.
+  - exact H.
+  - intros i. change (closing (handle_init s k)) with (closing s). rewrite I, L. split.
+    + intros (Hi & Hc & Hd). rewrite hget_init_old by exact Hi. split; [lia|auto].
+    + intros (Hi & Hc & Hd). destruct (Hlt i ltac:(lia)) as [Lo| ->].
+      * rewrite hget_init_old in Hc, Hd by exact Lo. auto.
+      * rewrite hget_init_new in Hc. discriminate.
+Qed.
+
+(* ------------------------------------------------------------------ *)
+(* API calls, scripts of API calls, callbacks                          *)
+(* ------------------------------------------------------------------ *)
+Lemma usable_lt s i : usable s i = true -> (i < length (hs s))%nat /\ h_closed (hget s i) = false.
+Proof.
+  unfold usable, lvalid. intros H. apply andb_prop in H. destruct H as [H1 H2].
+  apply Nat.ltb_lt in H1. apply negb_true_iff in H2. auto.
+Qed.
+
+Lemma LInvG_lapi s pend wpend o :
+  LInvG s pend wpend -> LInvG (fst (lapi s o)) pend wpend.
+Proof.
+  intros Hinv. destruct o; cbn [lapi].
+  - (* LInit *)
+    pose proof (LInvG_handle_init s pend wpend k Hinv) as I1.
+    destruct k; cbn [fst]; try exact I1.
+    set (s1 := handle_init s KAsync) in *. set (i := length (hs s)).
+    assert (Hi : (i < length (hs s1))%nat)
+      by (subst s1 i; unfold handle_init; cbn; rewrite app_length; simpl; lia).
+    set (s2 := upd_h s1 i (with_hascb hascb)).
+    assert (I2 : LInvG s2 pend wpend) by (apply LInvG_upd_h_inert; [apply flags_same_hascb|exact I1]).
+    set (s3 := set_async s2 _).
+    assert (I3 : LInvG s3 pend wpend) by (eapply LInvG_core; [|exact I2]; reflexivity).
+    assert (Hg : hget s3 i = with_hascb hascb (mkH KAsync false true false false false false)).
+    { change (hget s3 i) with (hget s2 i). subst s2.
+      rewrite (hget_upd_same s1 (upd_h s1 i (with_hascb hascb)) i (with_hascb hascb) eq_refl Hi).
+      subst s1 i. rewrite hget_init_new. reflexivity. }
+    apply LInvG_handle_start; [rewrite Hg; reflexivity|rewrite Hg; reflexivity|exact I3].
+  - (* LTStart *)
+    destruct (usable s i && kind_is s i KTimer) eqn:E; [|exact Hinv].
+    apply andb_prop in E. destruct E as [E1 E2]. apply usable_lt in E1. destruct E1 as [Hi _].
+    pose proof (LInvG_l_timer_start s pend wpend i cb t r Hi E2 Hinv) as I1.
+    destruct (l_timer_start s i cb t r) as [s' c]. exact I1.
+  - (* LTAgain *)
+    destruct (usable s i && kind_is s i KTimer) eqn:E; [|exact Hinv].
+    apply andb_prop in E. destruct E as [E1 E2]. apply usable_lt in E1. destruct E1 as [Hi _].
+    pose proof (LInvG_l_timer_again s pend wpend i Hi E2 Hinv) as I1.
+    destruct (l_timer_again s i) as [s' c]. exact I1.
+  - (* LTSetRepeat *)
+    destruct (usable s i && kind_is s i KTimer) eqn:E; [|exact Hinv].
+    apply andb_prop in E. destruct E as [E1 E2]. apply usable_lt in E1. destruct E1 as [Hi _].
+    cbn [fst]. apply LInvG_set_repeat; assumption.
+  - (* LStart *)
+    destruct (usable s i && is_watcher s i && negb (h_closing (hget s i))) eqn:E; [|exact Hinv].
+    apply andb_prop in E. destruct E as [E E3]. apply andb_prop in E. destruct E as [E1 E2].
+    apply negb_true_iff in E3. apply is_timer_false_of_watcher in E2.
+    pose proof (LInvG_watcher_start s pend wpend i hascb E2 E3 Hinv) as I1.
+    destruct (watcher_start s i hascb) as [s' c]. exact I1.
+  - (* LStop *)
+    destruct (usable s i) eqn:E1; [|exact Hinv]. apply usable_lt in E1. destruct E1 as [Hi _].
+    destruct (kind_is s i KTimer) eqn:E2; cbn [fst].
+    + apply LInvG_l_timer_stop; assumption.
+    + destruct (is_watcher s i) eqn:E3; cbn [fst]; [|exact Hinv].
+      apply LInvG_watcher_stop; [exact E2|exact Hinv].
+  - (* LRef *)
+    destruct (usable s i); cbn [fst]; [apply LInvG_handle_ref|]; exact Hinv.
+  - (* LUnref *)
+    destruct (usable s i); cbn [fst]; [apply LInvG_handle_unref|]; exact Hinv.
+  - (* LClose *)
+    destruct (usable s i && negb (h_closing (hget s i))) eqn:E; [|exact Hinv].
+    apply andb_prop in E. destruct E as [E1 _]. apply usable_lt in E1. destruct E1 as [Hi Hc].
+    cbn [fst]. apply LInvG_l_close; assumption.
+  - (* LSend *)
+    destruct (usable s i && kind_is s i KAsync); cbn [fst]; [apply LInvG_async_send|]; exact Hinv.
+  - (* LWork *)
+    cbn [fst]. apply LInvG_work_submit; exact Hinv.
+  - (* LStopLoop *)
+    cbn [fst]. eapply LInvG_core; [|exact Hinv]; reflexivity.
+  - (* LAdv *)
+    cbn [fst]. destruct Hinv as [HI WI]. split; [|eapply WInv_fields; [| | |exact WI]; reflexivity].
+    destruct HI as [A B C D E F G H I]. constructor; auto. cbn. lia.
+  - exact Hinv.
+  - exact Hinv.
+  - exact Hinv.
+  - exact Hinv.
+  - exact Hinv.
+Qed.
+
+Lemma LInvG_lapis os : forall s pend wpend,
+  LInvG s pend wpend -> LInvG (fst (lapis s os)) pend wpend.
+Proof.
+  induction os as [|o os IH]; intros s pend wpend Hinv; cbn [lapis]; [exact Hinv|].
+  pose proof (LInvG_lapi s pend wpend o Hinv) as I1.
+  destruct (lapi s o) as [s1 e1]. cbn [fst] in I1.
+  specialize (IH s1 pend wpend I1). destruct (lapis s1 os) as [s2 e2]. exact IH.
+Qed.
+
+Lemma LInvG_callback s pend wpend beh tag i :
+  LInvG s pend wpend -> LInvG (fst (callback s beh tag i)) pend wpend.
+Proof.
+  intros Hinv. unfold callback.
+  set (s1 := set_cbcount s _). set (ops := if Nat.eqb _ _ then _ else _).
+  assert (I1 : LInvG s1 pend wpend) by (eapply LInvG_core; [|exact Hinv]; reflexivity).
+  pose proof (LInvG_lapis ops s1 pend wpend I1) as I2.
+  destruct (lapis s1 ops) as [s2 evs]. exact I2.
+Qed.
+
+(* ------------------------------------------------------------------ *)
+(* the phases of uv_run                                               *)
+(* ------------------------------------------------------------------ *)
+Lemma LInvG_run_lq fuel : forall s pend wpend beh k tag,
+  LInvG s pend wpend -> LInvG (fst (run_lq fuel s beh k tag)) pend wpend.
+Proof.
+  induction fuel as [|f IH]; intros s pend wpend beh k tag Hinv; cbn [run_lq]; [exact Hinv|].
+  destruct (lq s) as [|i rest]; [exact Hinv|].
+  set (s2 := wq_set _ _ _).
+  assert (I2 : LInvG s2 pend wpend).
+  { eapply LInvG_core; [|exact Hinv]. subst s2. rewrite hcore_wq_set. reflexivity. }
+  pose proof (LInvG_callback s2 pend wpend beh tag i I2) as I3.
+  destruct (callback s2 beh tag i) as [s3 e1]. cbn [fst] in I3.
+  specialize (IH s3 pend wpend beh k tag I3).
+  destruct (run_lq f s3 beh k tag) as [s4 e2]. exact IH.
+Qed.
+
+Lemma LInvG_run_watchers s pend wpend beh k tag :
+  LInvG s pend wpend -> LInvG (fst (run_watchers s beh k tag)) pend wpend.
+Proof.
+  intros Hinv. unfold run_watchers. apply LInvG_run_lq.
+  eapply LInvG_core; [|exact Hinv].
+  change (hcore (set_lq (wq_set s k []) (wq_get s k))) with (hcore (wq_set s k [])).
+  apply hcore_wq_set.
+Qed.
+
+Lemma LInvG_run_alq fuel : forall s pend wpend beh,
+  LInvG s pend wpend -> LInvG (fst (run_alq fuel s beh)) pend wpend.
+Proof.
+  induction fuel as [|f IH]; intros s pend wpend beh Hinv; cbn [run_alq]; [exact Hinv|].
+  destruct (alq s) as [|i rest]; [exact Hinv|].
+  set (s2 := set_async _ _).
+  assert (I2 : LInvG s2 pend wpend) by (eapply LInvG_core; [|exact Hinv]; reflexivity).
+  assert (I4 : LInvG (fst (if h_pending (hget s2 i)
+                           then let s3 := upd_h s2 i (with_pending false) in
+                                if h_hascb (hget s2 i) then callback s3 beh 4 i else (s3, [])
+                           else (s2, []))) pend wpend).
+  { destruct (h_pending (hget s2 i)); [|exact I2]. cbv zeta.
+    assert (I3 : LInvG (upd_h s2 i (with_pending false)) pend wpend)
+      by (apply LInvG_upd_h_inert; [apply flags_same_pending|exact I2]).
+    destruct (h_hascb (hget s2 i)); [apply LInvG_callback|]; exact I3. }
+  destruct (if h_pending (hget s2 i) then _ else _) as [s4 e1]. cbn [fst] in I4.
+  specialize (IH s4 pend wpend beh I4).
+  destruct (run_alq f s4 beh) as [s5 e2]. exact IH.
+Qed.
+
+(* uv__work_done takes request [w], head of the detached batch *)
+Lemma LInvG_wq_deliver s pend w tl :
+  LInvG s pend (w :: tl) ->
+  LInvG (set_works (set_nreq s (nreq s - 1))
+                   (upd w (fun r => mkW (w_has_after r) true) (works (set_nreq s (nreq s - 1)))))
+        pend tl.
+Proof.
+  intros [HI [W1 W2 W3]].
+  split; [eapply HInv_fields; [| | | | |exact HI]; reflexivity|].
+  assert (Hin : In w (wq s ++ w :: tl)) by (apply in_or_app; right; left; reflexivity).
+  apply W3 in Hin. destruct Hin as (Hw & Hd).
+  constructor; cbn.
+  - rewrite (countZ_upd p_undeliv w _ (works s) dflt_w Hw). rewrite W1.
+    assert (Hp : p_undeliv (nth w (works s) dflt_w) = true) by (unfold p_undeliv; rewrite Hd; reflexivity).
+    rewrite Hp. unfold p_undeliv at 3. cbn [w_delivered negb b2z]. lia.
+  - apply NoDup_remove_1 in W2. exact W2.
+  - intros x. rewrite upd_length. destruct (Nat.eq_dec x w) as [->|Hne].
+    + rewrite nth_upd_same by exact Hw. cbn. split; [|intros (_ & Hx); discriminate].
+      intros Hx. apply NoDup_remove_2 in W2. contradiction.
+    + rewrite nth_upd_other by congruence. rewrite <- W3.
+      rewrite !in_app_iff. simpl. split; [tauto|].
+      intros [Hx|[Hx|Hx]]; auto. congruence.
+Qed.
+
+Lemma LInvG_run_wq l : forall s pend wpend beh,
+  LInvG s pend (l ++ wpend) -> LInvG (fst (run_wq l s beh)) pend wpend.
+Proof.
+  induction l as [|w rest IH]; intros s pend wpend beh Hinv; cbn [run_wq]; [exact Hinv|].
+  pose proof (LInvG_wq_deliver s pend w (rest ++ wpend) Hinv) as I2.
+  set (s2 := set_works _ _) in *.
+  assert (I3 : LInvG (fst (if w_has_after (nth w (works s) (mkW false false))
+                           then callback s2 beh 5 w else (s2, []))) pend (rest ++ wpend)).
+  { destruct (w_has_after _); [apply LInvG_callback|]; exact I2. }
+  destruct (if w_has_after _ then _ else _) as [s3 e1]. cbn [fst] in I3.
+  specialize (IH s3 pend wpend beh I3).
+  destruct (run_wq rest s3 beh) as [s4 e2]. exact IH.
+Qed.
+
+Lemma LInvG_update_time s pend wpend : LInvG s pend wpend -> LInvG (update_time s) pend wpend.
+Proof.
+  intros [HI WI]. split; [|eapply WInv_fields; [| | |exact WI]; reflexivity].
+  destruct HI as [A B C D E F G H I].
+  assert (Ea : ts (update_time s) = advance (ts s) (clock s - now (ts s))).
+  { unfold update_time, advance; cbn. f_equal. lia. }
+  constructor; try assumption.
+  - rewrite Ea. apply TI_advance. exact A.
+  - cbn. lia.
+Qed.
+
+Lemma LInvG_set_clock_fwd s pend wpend d :
+  0 <= d -> LInvG s pend wpend -> LInvG (set_clock s (clock s + d)) pend wpend.
+Proof.
+  intros Hd [HI WI]. split; [|eapply WInv_fields; [| | |exact WI]; reflexivity].
+  destruct HI as [A B C D E F G H I]. constructor; try assumption. cbn. lia.
+Qed.
+
+Lemma LInvG_detach_wq s pend :
+  LInvG s pend [] -> LInvG (set_wq (set_wqp s false) []) pend (wq (set_wqp s false) ++ []).
+Proof.
+  intros [HI [W1 W2 W3]]. split; [eapply HInv_fields; [| | | | |exact HI]; reflexivity|].
+  constructor; cbn [nreq works wq set_wq set_wqp]; auto.
+Qed.
+
+Lemma LInvG_poll_wakeup s pend wpend :
+  LInvG s pend wpend -> LInvG (set_efd (update_time s) false) pend wpend.
+Proof.
+  intros Hinv. eapply LInvG_core with (s := update_time s); [reflexivity|].
+  apply LInvG_update_time; exact Hinv.
+Qed.
+
+Lemma LInvG_io_poll s pend beh timeout :
+  LInvG s pend [] -> LInvG (fst (io_poll s beh timeout)) pend [].
+Proof.
+  intros Hinv. unfold io_poll. destruct (efd s).
+  - set (s1 := set_efd (update_time s) false).
+    assert (I1 : LInvG s1 pend []).
+    { eapply LInvG_core with (s := update_time s); [reflexivity|]. apply LInvG_update_time; exact Hinv. }
+    assert (I2 : LInvG (fst (if wq_pending s1
+                             then let s' := set_wqp s1 false in
+                                  let l := wq s' in run_wq l (set_wq s' []) beh
+                             else (s1, []))) pend []).
+    { destruct (wq_pending s1); [|exact I1]. cbv zeta. apply LInvG_run_wq.
+      destruct I1 as [HI [W1 W2 W3]]. split; [eapply HInv_fields; [| | | | |exact HI]; reflexivity|].
+      constructor; cbn [nreq works wq set_wq set_wqp]; auto. }
+    destruct (if wq_pending s1 then _ else _) as [s2 e1]. cbn [fst] in I2.
+    set (s3 := set_alq _ _).
+    assert (I3 : LInvG s3 pend []) by (eapply LInvG_core; [|exact I2]; reflexivity).
+    pose proof (LInvG_run_alq (length (async_q s2)) s3 pend [] beh I3) as I4.
+    destruct (run_alq (length (async_q s2)) s3 beh) as [s4 e2]. exact I4.
+  - destruct (timeout =? 0); cbn [fst]; [apply LInvG_update_time; exact Hinv|].
+    destruct (Z.ltb_spec timeout 0); cbn [fst].
+    + eapply LInvG_core with (s := update_time s); [reflexivity|]. apply LInvG_update_time; exact Hinv.
+    + destruct (metrics s).
+      * destruct (Z.leb_spec (timeout - (clock s - now (ts s))) 0); cbn [fst].
+        -- apply LInvG_update_time; exact Hinv.
+        -- apply LInvG_update_time. apply LInvG_set_clock_fwd; [lia|exact Hinv].
+      * cbn [fst]. apply LInvG_update_time. apply LInvG_set_clock_fwd; [lia|exact Hinv].
+Qed.
+
+(* uv__finish_close on the head [i] of the detached batch, up to the callback *)
+Lemma LInvG_finish_close s i tl wpend :
+  LInvG s (i :: tl) wpend -> LInvG (handle_unref (upd_h s i (with_closed true)) i) tl wpend.
+Proof.
+  intros Hinv. pose proof Hinv as [HI _].
+  assert (Hin : In i (closing s ++ i :: tl)) by (apply in_or_app; right; left; reflexivity).
+  apply (hi_cl _ _ HI) in Hin. destruct Hin as (Hi & Hc & Hd).
+  destruct (hi_hok _ _ HI i Hi) as (Hina & _).
+  pose proof (hstep_upd_h s s i (fun h => h) (with_closed true) _ _ _ (p_ar_with_closed _ _)
+                (hstep_refl s i)) as H1. cbv beta in H1.
+  assert (Hca : h_closing (with_closed true (hget s i)) = true ->
+                h_active (with_closed true (hget s i)) = false) by (intros _; apply Hina; exact Hc).
+  pose proof (hstep_handle_unref s _ i _ _ _ _ Hi Hca H1) as H2.
+  eapply LInvG_hstep_closed with (i := i);
+    [exact Hinv|exact H2|reflexivity|reflexivity|exact Hc|reflexivity].
+Qed.
+
+(* uv__run_closing_handles: the detached batch [l] is the pending batch *)
+Lemma LInvG_run_closing l : forall s pend wpend beh,
+  LInvG s (l ++ pend) wpend -> LInvG (fst (run_closing l s beh)) pend wpend.
+Proof.
+  induction l as [|i rest IH]; intros s pend wpend beh Hinv; cbn [run_closing]; [exact Hinv|].
+  pose proof (LInvG_finish_close s i (rest ++ pend) wpend Hinv) as I2.
+  pose proof (LInvG_callback _ (rest ++ pend) wpend beh 6 i I2) as I3.
+  destruct (callback _ beh 6 i) as [s3 e1]. cbn [fst] in I3.
+  specialize (IH s3 pend wpend beh I3).
+  destruct (run_closing rest s3 beh) as [s4 e2]. exact IH.
+Qed.
+
+(* the ready queue of the timer pass *)
+Lemma LInvG_push_ready s pend wpend i :
+  LInvG s pend wpend -> (i < length (hs s))%nat ->
+  t_active (get (ts s) i) = false -> ~ In i (ready (ts s)) ->
+  t_timeout (get (ts s) i) <= now (ts s) -> is_timer (hget s i) = true ->
+  LInvG (set_ts s (mkT (now (ts s)) (counter (ts s)) (hp (ts s)) (tms (ts s))
+                       (ready (ts s) ++ [i]))) pend wpend.
+Proof.
+  intros [HI WI] Hi Ha Hn Ht Hk. split; [|eapply WInv_fields; [| | |exact WI]; reflexivity].
+  destruct HI as [A B C D E F G H I]. constructor; try assumption.
+  - cbn [ts set_ts]. apply TI_push_ready; auto. rewrite C. exact Hi.
+  - intros j Hj. cbn [ts set_ts ready] in Hj. apply in_app_or in Hj.
+    destruct Hj as [Hj|[<-|[]]]; [apply E; exact Hj|exact Hk].
+Qed.
+
+Lemma LInvG_pop_ready s pend wpend i rest :
+  LInvG s pend wpend -> ready (ts s) = i :: rest ->
+  LInvG (set_ts s (mkT (now (ts s)) (counter (ts s)) (hp (ts s)) (tms (ts s)) rest)) pend wpend.
+Proof.
+  intros [HI WI] Hr. split; [|eapply WInv_fields; [| | |exact WI]; reflexivity].
+  destruct HI as [A B C D E F G H I]. constructor; try assumption.
+  - cbn [ts set_ts]. eapply TI_pop; eauto.
+  - intros j Hj. cbn [ts set_ts ready] in Hj. apply E. rewrite Hr. right; exact Hj.
+Qed.
+
+Lemma l_timer_stop_step s i : (i < length (hs s))%nat ->
+  hstepG s (l_timer_stop s i) i
+         (fun h => with_active (t_active (get (timer_stop (ts s) i) i)) h)
+         (timer_stop (ts s) i) (clock s) (closing s).
+Proof.
+  intros Hi. unfold l_timer_stop.
+  exact (hstep_sync_timer_active s _ i _ _ _ _ Hi
+           (hstep_set_ts s s i _ _ _ _ (timer_stop (ts s) i) (hstep_refl s i))).
+Qed.
+
+Lemma LInvG_l_collect fuel : forall s pend wpend,
+  LInvG s pend wpend -> LInvG (l_collect fuel s) pend wpend.
+Proof.
+  induction fuel as [|f IH]; intros s pend wpend Hinv; cbn [l_collect]; [exact Hinv|].
+  destruct (heap_min (hp (ts s))) as [k|] eqn:Em; [|exact Hinv].
+  destruct (Z.ltb_spec (now (ts s)) (k_timeout k)); [exact Hinv|].
+  pose proof Hinv as [HI _]. pose proof (hi_ti _ _ HI) as T.
+  assert (Hk : In k (els (ts s))).
+  { unfold heap_min in Em. destruct (h_tree (hp (ts s))); simpl in *; [discriminate|].
+    inversion Em; subst. left; reflexivity. }
+  destruct (ti_e1 _ T k Hk) as (Hit & Ha & Hto & Hsid).
+  assert (Hi : (k_id k < length (hs s))%nat) by (rewrite <- (hi_len _ _ HI); exact Hit).
+  destruct (timer_stop_effect (ts s) (k_id k) T Hit) as (Ea & Hnr & Hnow & Hctr & Hlen & Hrd & Hfld & Hoth).
+  pose proof (LInvG_l_timer_stop s pend wpend (k_id k) Hi Hinv) as I1.
+  pose proof (l_timer_stop_step s (k_id k) Hi) as Hst.
+  pose proof (hstep_hget _ _ _ _ _ _ _ Hi Hst) as Hg.
+  pose proof Hst as (A1 & _ & A3 & _).
+  set (s1 := l_timer_stop s (k_id k)) in *.
+  assert (Hl1 : length (hs s1) = length (hs s)) by (rewrite A1; apply upd_length).
+  apply IH. apply LInvG_push_ready; auto.
+  - lia.
+  - rewrite A3. exact Ea.
+  - rewrite A3. exact Hnr.
+  - rewrite A3. destruct (Hfld (k_id k)) as (B1 & _). rewrite B1, Hto, Hnow. lia.
+  - rewrite Hg. unfold is_timer. cbn [h_kind with_active].
+    destruct (hi_sync _ _ HI (k_id k) Hi) as (S1 & _). rewrite Ha in S1.
+    symmetry in S1. apply andb_prop in S1. apply S1.
+Qed.
+
+(* second loop of uv__run_timers: pop the head, uv_timer_again *)
+Lemma LInvG_fire_step s pend wpend i rest :
+  LInvG s pend wpend -> ready (ts s) = i :: rest ->
+  LInvG (fst (l_timer_again
+                (set_ts s (mkT (now (ts s)) (counter (ts s)) (hp (ts s)) (tms (ts s)) rest)) i))
+        pend wpend.
+Proof.
+  intros Hinv Er. pose proof Hinv as [HI _]. pose proof (hi_ti _ _ HI) as T.
+  assert (Hin : In i (ready (ts s))) by (rewrite Er; left; reflexivity).
+  destruct (ti_r _ T i Hin) as (Hit & _).
+  assert (Hi : (i < length (hs s))%nat) by (rewrite <- (hi_len _ _ HI); exact Hit).
+  pose proof (hi_ready _ _ HI i Hin) as Hk.
+  pose proof (LInvG_pop_ready s pend wpend i rest Hinv Er) as I0.
+  apply LInvG_l_timer_again; [exact Hi|exact Hk|exact I0].
+Qed.
+
+Lemma LInvG_l_fire fuel : forall s pend wpend beh,
+  LInvG s pend wpend -> LInvG (fst (l_fire fuel s beh)) pend wpend.
+Proof.
+  induction fuel as [|f IH]; intros s pend wpend beh Hinv; cbn [l_fire]; [exact Hinv|].
+  destruct (ready (ts s)) as [|i rest] eqn:Er; [exact Hinv|].
+  pose proof (LInvG_fire_step s pend wpend i rest Hinv Er) as I1.
+  set (s0 := set_ts s _) in *.
+  pose proof (LInvG_callback _ pend wpend beh 0 i I1) as I2.
+  destruct (callback (fst (l_timer_again s0 i)) beh 0 i) as [s2 e1]. cbn [fst] in I2.
+  specialize (IH s2 pend wpend beh I2).
+  destruct (l_fire f s2 beh) as [s3 e2]. exact IH.
+Qed.
+
+Lemma LInvG_l_run_timers s pend wpend beh :
+  LInvG s pend wpend -> LInvG (fst (l_run_timers s beh)) pend wpend.
+Proof. intros Hinv. unfold l_run_timers. apply LInvG_l_fire. apply LInvG_l_collect. exact Hinv. Qed.
+
+Lemma LInvG_detach_closing s wpend :
+  LInvG s [] wpend -> LInvG (set_closing s []) (closing s ++ []) wpend.
+Proof.
+  intros [HI WI]. split; [|eapply WInv_fields; [| | |exact WI]; reflexivity].
+  destruct HI as [A B C D E F G H I]. constructor; try assumption.
+Qed.
+
+(* ------------------------------------------------------------------ *)
+(* uv_run and whole scripts                                           *)
+(* ------------------------------------------------------------------ *)
+Lemma LInvG_iteration s beh mode : LInvG s [] [] -> LInvG (fst (iteration s beh mode)) [] [].
+Proof.
+  intros Hinv. unfold iteration.
+  pose proof (LInvG_run_watchers s [] [] beh KIdle 1 Hinv) as I1.
+  destruct (run_watchers s beh KIdle 1) as [s1 e1]. cbn [fst] in I1.
+  pose proof (LInvG_run_watchers s1 [] [] beh KPrepare 2 I1) as I2.
+  destruct (run_watchers s1 beh KPrepare 2) as [s2 e2]. cbn [fst] in I2.
+  match goal with |- context [io_poll _ beh ?t] => set (timeout := t) end.
+  assert (I2' : LInvG (set_dirty s2 false) [] []) by (eapply LInvG_core; [|exact I2]; reflexivity).
+  pose proof (LInvG_io_poll _ [] beh timeout I2') as I3.
+  destruct (io_poll (set_dirty s2 false) beh timeout) as [s3 e3]. cbn [fst] in I3.
+  pose proof (LInvG_run_watchers s3 [] [] beh KCheck 3 I3) as I4.
+  destruct (run_watchers s3 beh KCheck 3) as [s4 e4]. cbn [fst] in I4.
+  pose proof (LInvG_run_closing (closing s4) (set_closing s4 []) [] [] beh (LInvG_detach_closing _ _ I4)) as I5.
+  destruct (run_closing (closing s4) (set_closing s4 []) beh) as [s5 e5]. cbn [fst] in I5.
+  pose proof (LInvG_l_run_timers _ [] [] beh (LInvG_update_time _ _ _ I5)) as I7.
+  destruct (l_run_timers (update_time s5) beh) as [s7 e6]. exact I7.
+Qed.
+
+Lemma LInvG_run_loop fuel : forall s beh mode,
+  LInvG s [] [] -> LInvG (fst (fst (run_loop fuel s beh mode))) [] [].
+Proof.
+  induction fuel as [|f IH]; intros s beh mode Hinv; cbn [run_loop]; [exact Hinv|].
+  pose proof (LInvG_iteration s beh mode Hinv) as I1.
+  destruct (iteration s beh mode) as [s1 e1]. cbn [fst] in I1.
+  destruct (negb (Nat.eqb mode 0)); [exact I1|].
+  destruct (loop_alive s1 && negb (stop_flag s1)); [|exact I1].
+  specialize (IH s1 beh mode I1).
+  destruct (run_loop f s1 beh mode) as [[s2 e2] r2]. exact IH.
+Qed.
+
+Lemma LInvG_uv_run fuel s beh mode :
+  LInvG s [] [] -> LInvG (fst (uv_run fuel s beh mode)) [] [].
+Proof.
+  intros Hinv. unfold uv_run.
+  set (s0 := if loop_alive s then s else update_time s).
+  assert (I0 : LInvG s0 [] []) by (subst s0; destruct (loop_alive s); [|apply LInvG_update_time]; exact Hinv).
+  assert (I1 : LInvG (fst (if Nat.eqb mode 0 && loop_alive s && negb (stop_flag s0)
+                           then l_run_timers (update_time s0) beh else (s0, []))) [] []).
+  { destruct (Nat.eqb mode 0 && loop_alive s && negb (stop_flag s0)); [|exact I0].
+    apply LInvG_l_run_timers. apply LInvG_update_time. exact I0. }
+  destruct (if Nat.eqb mode 0 && loop_alive s && negb (stop_flag s0) then _ else _) as [s1 e0].
+  cbn [fst] in I1.
+  assert (I2 : LInvG (fst (fst (if loop_alive s && negb (stop_flag s1)
+                                then run_loop fuel s1 beh mode else (s1, [], loop_alive s)))) [] []).
+  { destruct (loop_alive s && negb (stop_flag s1)); [apply LInvG_run_loop|]; exact I1. }
+  destruct (if loop_alive s && negb (stop_flag s1) then _ else _) as [[s2 e1] r'].
+  cbn [fst] in *. eapply LInvG_core; [|exact I2]. reflexivity.
+Qed.
+
+Lemma LInvG_lrun os : forall s beh, LInvG s [] [] -> LInvG (fst (lrun s os beh)) [] [].
+Proof.
+  induction os as [|o os IH]; intros s beh Hinv; [exact Hinv|].
+  assert (Hgen : forall s1 e1, lapi s o = (s1, e1) ->
+                 LInvG (fst (let '(s1, e1) := lapi s o in
+                             let '(s2, e2) := lrun s1 os beh in (s2, e1 ++ e2))) [] []).
+  { intros s1 e1 E. rewrite E. pose proof (LInvG_lapi s [] [] o Hinv) as I1. rewrite E in I1.
+    specialize (IH s1 beh I1). destruct (lrun s1 os beh) as [s2 e2]. exact IH. }
+  destruct o as [k hascb|i cb t r|i|i r|i hascb|i|i|i|i|i|a| |d| | | |m| ]; cbn [lrun];
+    try (eapply Hgen; apply surjective_pairing).
+  - pose proof (LInvG_uv_run run_fuel s beh m Hinv) as I1.
+    destruct (uv_run run_fuel s beh m) as [s1 e1]. cbn [fst] in I1.
+    specialize (IH s1 beh I1). destruct (lrun s1 os beh) as [s2 e2]. exact IH.
+  - specialize (IH s beh Hinv). destruct (lrun s os beh) as [s2 e2]. exact IH.
+Qed.
+
+(* the two-argument form *)
+Lemma LInv_init t0 m : LInv (linit t0 m) [].
+Proof. apply LInvG_init. Qed.
+
+Lemma LInv_lapi s pend o : LInv s pend -> LInv (fst (lapi s o)) pend.
+Proof. apply LInvG_lapi. Qed.
+
+Lemma LInv_lapis s pend os : LInv s pend -> LInv (fst (lapis s os)) pend.
+Proof. apply LInvG_lapis. Qed.
+
+Lemma LInv_callback s pend beh tag i : LInv s pend -> LInv (fst (callback s beh tag i)) pend.
+Proof. apply LInvG_callback. Qed.
+
+Lemma LInv_iteration s beh mode : LInv s [] -> LInv (fst (iteration s beh mode)) [].
+Proof. apply LInvG_iteration. Qed.
+
+Lemma LInv_uv_run fuel s beh mode : LInv s [] -> LInv (fst (uv_run fuel s beh mode)) [].
+Proof. apply LInvG_uv_run. Qed.
+
+Lemma LInv_lrun s os beh : LInv s [] -> LInv (fst (lrun s os beh)) [].
+Proof. apply LInvG_lrun. Qed.
+
+Theorem LInv_reachable t0 m os beh : LInv (fst (lrun (linit t0 m) os beh)) [].
+Proof. apply LInv_lrun, LInv_init. Qed.
+
+(* ------------------------------------------------------------------ *)
+(* reading the invariant                                              *)
+(* ------------------------------------------------------------------ *)
+Lemma LInvG_counts_nonneg s pend wpend : LInvG s pend wpend -> 0 <= nact s /\ 0 <= nreq s.
+Proof.
+  intros [HI WI]. rewrite (hi_nact _ _ HI), (wi_nreq _ _ WI). split; apply countZ_nonneg.
+Qed.
+
+Lemma LInvG_in_hs_hok s pend wpend h : LInvG s pend wpend -> In h (hs s) -> hok h.
+Proof.
+  intros [HI _] Hin. apply In_nth_error in Hin. destruct Hin as (i & Hi).
+  apply nth_error_hget in Hi. destruct Hi as (<- & Hi). apply (hi_hok _ _ HI i Hi).
+Qed.
+
+(* the counter is positive exactly when some handle is active, referenced and not closing *)
+Lemma LInvG_nact_pos s pend wpend : LInvG s pend wpend ->
+  (0 < nact s <-> exists i h, nth_error (hs s) i = Some h /\
+                              h_active h = true /\ h_ref h = true /\ h_closing h = false).
+Proof.
+  intros Hinv. pose proof Hinv as [HI _]. rewrite (hi_nact _ _ HI), countZ_pos_iff. split.
+  - intros (h & Hin & Hp). unfold p_ar in Hp. apply andb_prop in Hp. destruct Hp as [Ha Hr].
+    destruct (LInvG_in_hs_hok s pend wpend h Hinv Hin) as (K1 & _).
+    apply In_nth_error in Hin. destruct Hin as (i & Hi). exists i, h. repeat split; auto.
+    destruct (h_closing h); [|reflexivity]. specialize (K1 eq_refl). congruence.
+  - intros (i & h & Hi & Ha & Hr & _). exists h. split; [eapply nth_error_In; eauto|].
+    unfold p_ar. rewrite Ha, Hr. reflexivity.
+Qed.
+
+Lemma LInvG_nact_existsb s pend wpend : LInvG s pend wpend ->
+  (0 <? nact s) = existsb (fun h => h_active h && h_ref h && negb (h_closing h)) (hs s).
+Proof.
+  intros Hinv. apply eq_true_iff_eq. rewrite Z.ltb_lt, existsb_exists.
+  rewrite (LInvG_nact_pos s pend wpend Hinv). split.
+  - intros (i & h & Hi & Ha & Hr & Hc). exists h. split; [eapply nth_error_In; eauto|].
+    rewrite Ha, Hr, Hc. reflexivity.
+  - intros (h & Hin & Hp). apply andb_prop in Hp. destruct Hp as [Hp Hc].
+    apply andb_prop in Hp. destruct Hp as [Ha Hr]. apply negb_true_iff in Hc.
+    apply In_nth_error in Hin. destruct Hin as (i & Hi). exists i, h. auto.
+Qed.
+
+(* outside a close batch the closing list is non-empty exactly when some handle
+   is closing and not closed *)
+Lemma LInvG_closing_nonempty s wpend : LInvG s [] wpend ->
+  (closing s <> [] <-> exists i h, nth_error (hs s) i = Some h /\
+                                   h_closing h = true /\ h_closed h = false).
+Proof.
+  intros [HI _]. pose proof (hi_cl _ _ HI) as Hcl. split.
+  - intros Hne. destruct (closing s) as [|i l] eqn:E; [congruence|].
+    destruct (Hcl i) as [Hc _]. rewrite app_nil_r in Hc.
+    destruct (Hc (or_introl eq_refl)) as (Hi & Hg & Hd).
+    exists i, (hget s i). split; [apply hget_nth_error; exact Hi|auto].
+  - intros (i & h & Hi & Hg & Hd) Hnil. apply nth_error_hget in Hi. destruct Hi as (<- & Hi).
+    destruct (Hcl i) as [_ Hc]. rewrite Hnil in Hc. simpl in Hc. apply Hc. auto.
+Qed.
+
+Lemma LInvG_closing_existsb s wpend : LInvG s [] wpend ->
+  negb (match closing s with [] => true | _ => false end) =
+  existsb (fun h => h_closing h && negb (h_closed h)) (hs s).
+Proof.
+  intros Hinv. apply eq_true_iff_eq. rewrite existsb_exists.
+  assert (Hne : negb (match closing s with [] => true | _ => false end) = true <-> closing s <> [])
+    by (destruct (closing s); cbn; split; congruence).
+  rewrite Hne, (LInvG_closing_nonempty s wpend Hinv). split.
+  - intros (i & h & Hi & Hg & Hd). exists h. split; [eapply nth_error_In; eauto|].
+    rewrite Hg, Hd. reflexivity.
+  - intros (h & Hin & Hp). apply andb_prop in Hp. destruct Hp as [Hg Hd].
+    apply negb_true_iff in Hd. apply In_nth_error in Hin. destruct Hin as (i & Hi). exists i, h. auto.
+Qed.
+
+Lemma LInvG_nreq_pos s pend wpend : LInvG s pend wpend ->
+  (0 < nreq s <-> exists w r, nth_error (works s) w = Some r /\ w_delivered r = false).
+Proof.
+  intros [_ WI]. rewrite (wi_nreq _ _ WI), countZ_pos_iff. split.
+  - intros (r & Hin & Hp). apply In_nth_error in Hin. destruct Hin as (w & Hw).
+    exists w, r. split; [exact Hw|]. unfold p_undeliv in Hp. apply negb_true_iff in Hp. exact Hp.
+  - intros (w & r & Hw & Hd). exists r. split; [eapply nth_error_In; eauto|].
+    unfold p_undeliv. rewrite Hd. reflexivity.
 Qed.
